@@ -762,7 +762,7 @@ Section RegionFacts.
     - destruct ((xNowS (sExt st) <? xDefS (cExt c)) || (elapsed_ms st c >? xDefer (sExt st)));
         [|intros Hs; inversion Hs; subst; auto].
       intros Hs.
-      set (c0 := set_cext c (mkCExt (xDefS (cExt c)) 0 (cScaled c))) in *.
+      set (c0 := set_cext c (ext_timer (cExt c) (xDefS (cExt c)) 0)) in *.
       assert (E0 : fb_for st c0 = fb_for st c) by (unfold fb_for, c0; destruct c; reflexivity).
       assert (I0 : InvC (sW st) (sH st) (fb_for st c0) c0) by (rewrite E0; apply inv_set_cext; exact Ic).
       destruct (inv_send st c0 c' m HW HH I0 Hs) as [G1 G2]. rewrite E0 in G1.
@@ -863,8 +863,11 @@ Section RegionFacts.
 
   Lemma rescale_client_R w h oW oH chain c : cR (snd (rescale_client w h oW oH chain c)) = cR c.
   Proof.
-    unfold rescale_client. destruct (cScaled c) as [[sw sh]|]; [|reflexivity].
-    match goal with |- context [if ?b then _ else _] => destruct b end; destruct c; reflexivity.
+    unfold rescale_client. destruct (negb (rescale_visits c)).
+    - cbn [snd]. destruct (cClosed c); [|reflexivity]. destruct (cScaled c); [|reflexivity]. destruct c; reflexivity.
+    - destruct (cClosed c); [destruct c; reflexivity|].
+      destruct (cScaled c) as [[sw sh]|]; [|reflexivity].
+      match goal with |- context [if ?b then _ else _] => destruct b end; destruct c; reflexivity.
   Qed.
 
   Lemma rescale_clients_R w h oW oH l : forall chain,
@@ -878,10 +881,10 @@ Section RegionFacts.
     constructor; [rewrite Ec; assumption|exact IH].
   Qed.
 
-  Lemma step_inv st o st' out : Inv st -> op_ok st o -> step st o = Some (st', out) -> Inv st'.
+  Lemma step0_inv st o st' out : Inv st -> op_ok st o -> step0 st o = Some (st', out) -> Inv st'.
   Proof.
     intros HI Hok Hs. pose proof HI as (HW & HH & Hcur & Hcl).
-    destruct o; cbn [step] in Hs; cbn [op_ok] in Hok.
+    destruct o; cbn [step0] in Hs; cbn [op_ok] in Hok.
     - (* AddClient *)
       inversion Hs; subst. unfold Inv. destruct st; cbn in *. repeat split; try assumption.
       apply Forall_app. split; [exact Hcl|]. constructor; [|constructor].
@@ -1106,6 +1109,41 @@ Section RegionFacts.
       + intros a a' m' Ha _. inversion Ha; subst.
         apply invc_Fext with (F := fb_for st cl); [|exact G1].
         intros x y _. unfold fb_for. rewrite G2. destruct st; reflexivity.
+    - (* Close: only the life flag *)
+      destruct (upd_nth c (sClients st) _) as [[l m]|] eqn:Eu; [|discriminate]. inversion Hs; subst.
+      unfold Inv.
+      replace (sW (set_clients st l)) with (sW st) by (destruct st; reflexivity).
+      replace (sH (set_clients st l)) with (sH st) by (destruct st; reflexivity).
+      replace (sCursor (set_clients st l)) with (sCursor st) by (destruct st; reflexivity).
+      replace (sClients (set_clients st l)) with l by (destruct st; reflexivity).
+      repeat split; try assumption.
+      eapply Forall_upd_nth with (P := fun c => InvC (sW st) (sH st) (fb_for st c) c); [exact Eu| | |exact Hcl].
+      + intros a Ia. apply invc_Fext with (F := fb_for st a); [|exact Ia].
+        intros x y _. unfold fb_for. destruct st; reflexivity.
+      + intros a a' m' Ha Ia. inversion Ha; subst.
+        apply invc_Fext with (F := fb_for st a); [|apply inv_set_cext; exact Ia].
+        intros x y _. unfold fb_for. destruct a; destruct st; reflexivity.
+    - (* Reap: only the life flags *)
+      destruct (existsb cDangling (sClients st)); [discriminate|]. inversion Hs; subst.
+      unfold Inv.
+      replace (sW (set_clients st _)) with (sW st) by (destruct st; reflexivity).
+      replace (sH (set_clients st _)) with (sH st) by (destruct st; reflexivity).
+      replace (sCursor (set_clients st _)) with (sCursor st) by (destruct st; reflexivity).
+      match goal with |- context [sClients (set_clients st ?l)] =>
+        replace (sClients (set_clients st l)) with l by (destruct st; reflexivity) end.
+      repeat split; try assumption.
+      apply Forall_map. eapply Forall_impl; [|exact Hcl]. intros a Ia.
+      destruct (cClosed a).
+      + apply invc_Fext with (F := fb_for st a); [|apply inv_set_cext; exact Ia].
+        intros x y _. unfold fb_for. destruct a; destruct st; reflexivity.
+      + apply invc_Fext with (F := fb_for st a); [|exact Ia].
+        intros x y _. unfold fb_for. destruct st; reflexivity.
+  Qed.
+
+  Lemma step_inv st o st' out : Inv st -> op_ok st o -> step st o = Some (st', out) -> Inv st'.
+  Proof.
+    intros HI Hok. unfold step. destruct (op_target o) as [c|]; [destruct (live_at st c); [|discriminate]|];
+      apply step0_inv; assumption.
   Qed.
 
   (* run-level: validity of every operation in the state where it is executed *)
